@@ -340,4 +340,37 @@ PROPS = {
         "quick": {"runs": [{"test": "^TestC20$", "shards": 16, "checks": 6, "timeout": 900}]},
         "thorough": {"runs": [{"test": "^TestC20$", "shards": 16, "checks": 150, "timeout": 3400}]},
     },
+    "C03": {
+        "title": "Hostile input is contained to the offending connection",
+        "level": "exploration",
+        "needs_cmds": True,
+        "race_cmds": ("srvchild",),
+        "hang_is_violation": True,
+        "rule": "TestC03 (bubble): 1-3 well-behaved clients (one is the sentinel) and 1-6 hostile connections per case; hostile material is "
+                "derived by structure-aware mutation from well-formed requests of all 43 registered types plus login: field data replaced by "
+                "0/1/2/3/4/5-byte, truncated, extended, 255..65000-byte or random values (short ids where 2/4 bytes are converted to arrays, "
+                "unknown chat/user/article ids), fields dropped / duplicated / swapped / retyped / added, transaction type replaced by "
+                "server-only types, total-size / data-size / param-count / field-size overwritten with boundary values (0,1,2,21,22,0x7fff,"
+                "0xffff,0x10000,0xffffffeb..0xffffffff), reply flag set, truncation, garbage tail; pre-login (random / truncated handshake, mutated "
+                "login), post-login, pure random bytes, and transfer connections (unknown / valid reference, bad protocol, short preamble; upload "
+                "streams with truncated or inconsistent FILP/INFO/DATA headers and declared sizes <= 1 MiB, folder-upload item headers with bad "
+                "sizes/counts, folder-download action garbage and malformed resume data); all hostile payloads are issued before anything settles. "
+                "Oracle: the test process survives (an unrecovered panic in any server goroutine kills it), the sentinel gets keep-alive and "
+                "user-list replies at quiescence (a real-time watchdog turns a wedge into a violation), no well-behaved client is disconnected; "
+                "after the hostile connections close: user list == registry == CurrentlyConnected == well-behaved clients, "
+                "DownloadsInProgress == UploadsInProgress == 0, every well-behaved client still answered. TestC03Net (child process, production "
+                "ListenAndServe over loopback): 1500 (thorough 12000) connections from as many distinct 127.x.y.z source addresses, 200 at a time, "
+                "with handshake-only / garbage / bad login / immediate close / login + mutated requests; the child must still be running, the "
+                "sentinel answered, the user list back to 1 entry, no 'fatal error' in its output; thorough adds a -race build where only race "
+                "reports with runtime map frames count. non-trivial = a hostile connection got past handshake and login (bubble) / sent more "
+                "than a handshake (net); distinct = hash(hostile descriptions) / hash(source, bytes)",
+        "assumptions": ["the hostile account lacks disconnect-user / delete-user / modify-user: an authorised administrator removing other users is not a containment failure",
+                        "declared fork sizes <= 1 MiB (the property's bound)", "goroutine schedules are sampled"],
+        "quick": {"runs": [{"test": "^TestC03$", "shards": 15, "checks": 100, "timeout": 900},
+                           {"test": "^TestC03Net$", "shards": 1, "timeout": 600}]},
+        "thorough": {"runs": [{"test": "^TestC03$", "shards": 16, "checks": 3000, "timeout": 3400, "group": 0},
+                              {"fuzz": "^FuzzC03$", "test": "FuzzC03", "fuzztime": "240s", "timeout": 900, "group": 1, "weight": 16},
+                              {"test": "^TestC03Net$", "shards": 2, "timeout": 900, "group": 2, "weight": 8},
+                              {"test": "^TestC03Net$", "shards": 1, "timeout": 900, "group": 3, "weight": 16, "env": {"VERIF_C03_RACE": "1"}}]},
+    },
 }
